@@ -172,6 +172,20 @@ def _true_literals(expr, sc, depth=0):
                 lits |= set(t["e"]["v"] for t in sir.walk(a["pat"]) if t.get("k") == "p_lit" and t["e"].get("t") == "str")
         if okm and lits:
             return lits, e["e"]
+    if e.get("k") == "mcall" and e["m"] == "contains" and len(e["args"]) == 1:
+        # `TABLE.contains(&x)` over a constant array of string literals (or an array literal)
+        recv = sir.strip_ref(e["recv"])
+        arr = None
+        if recv.get("k") == "array":
+            arr = recv
+        elif recv.get("k") == "path":
+            c = sc.const(recv["segs"][-1])
+            if c is not None and (c.get("e") or {}).get("k") == "array":
+                arr = c["e"]
+            elif c is not None and (c.get("e") or {}).get("k") == "ref" and c["e"]["e"].get("k") == "array":
+                arr = c["e"]["e"]
+        if arr is not None and arr["elems"] and all(sir.strip_ref(x).get("k") == "lit" and sir.strip_ref(x).get("t") == "str" for x in arr["elems"]):
+            return set(sir.strip_ref(x)["v"] for x in arr["elems"]), sir.strip_ref(e["args"][0])
     if e.get("k") == "call" and depth < 2 and len(e["args"]) == 1:
         nm = sir.call_name(e)
         cands = [g for g in sc.fns if g.name == nm and g.body]
@@ -223,6 +237,19 @@ def rules_rule(ctx, prefix):
         bound = False
         if base_ok:
             nm = e["segs"][0]
+            # follow `let at_keyword: &str = &x;` style renamings back to the binding of the token's payload
+            for _hop in range(4):
+                nxt = None
+                for n in sir.walk(f.body):
+                    if n.get("k") == "local" and n["pat"].get("name") == nm and n.get("init") is not None:
+                        i_ = sir.strip_ref(n["init"])
+                        while (i_.get("k") == "unary" and i_.get("op") == "*") or (i_.get("k") == "mcall" and not i_["args"] and i_["m"] in ("as_ref", "as_str", "deref", "clone")):
+                            i_ = sir.strip_ref(i_["e"] if i_.get("k") == "unary" else i_["recv"])
+                        if i_.get("k") == "path" and len(i_["segs"]) == 1 and i_["segs"][0] != nm:
+                            nxt = i_["segs"][0]
+                if nxt is None:
+                    break
+                nm = nxt
             for n in sir.walk(f.body):
                 if n.get("k") == "local" and n["pat"].get("name") == nm and n.get("init") is not None and sir.expr_str(sir.strip_ref(n["init"])).lstrip("*&") == nm:
                     bound = True
@@ -408,6 +435,10 @@ def sep_rule(ctx, prefix):
                 writers.setdefault(w["field"], set()).add(b["root"])
     allowed = {"output::StyleSheetOutput::new", "output::StyleSheetOutput::append_raw", "output::StyleSheetOutput::append_token",
                "output::StyleSheetOutput::append_token_space_preserved", "output::StyleSheetOutput::write_source_map", "output::StyleSheetOutput::extract_source_map"}
+    # private methods of the output type can only be reached through its own (listed) entry points
+    for g in ctx.sc.fns:
+        if g.base == "StyleSheetOutput" and g.body and not g.node.get("vis"):
+            allowed.add("output::StyleSheetOutput::" + g.name)
     obs = []
     for fld in ("s", "prev_ser_type", "utf16_len"):
         ws = writers.get(fld, set())
@@ -619,20 +650,36 @@ def rpx_rules(ctx, prefix):
     G = gd.guards_of(f.body)
     unit_names = gd.derived_names(f.body, "unit") | {"unit"}
 
+    def text_of(e):
+        """the text of a string literal or of a named text constant, through `.into()` / `.to_string()` / `&*`"""
+        e = sir.strip_ref(e)
+        while True:
+            if e.get("k") == "mcall" and e["m"] in ("into", "to_string", "to_owned", "as_str", "as_ref", "clone") and not e["args"]:
+                e = sir.strip_ref(e["recv"])
+            elif e.get("k") == "unary" and e.get("op") == "*":
+                e = sir.strip_ref(e["e"])
+            elif e.get("k") == "paren":
+                e = sir.strip_ref(e["e"])
+            else:
+                break
+        if e.get("k") == "lit" and e.get("t") == "str":
+            return e["v"]
+        return sir.const_text(e)
+
     def unit_is_rpx(gs):
         val = None
         extra = []
         for kind, subj, pol in gs:
             if kind == "cond" and subj.get("k") == "binary" and subj.get("op") in ("==", "!="):
                 sides = [subj["l"], subj["r"]]
-                lit = [x for x in sides if sir.strip_ref(x).get("k") == "lit" and sir.strip_ref(x).get("v") == "rpx"]
+                lit = [x for x in sides if text_of(x) == "rpx"]
                 oth = [x for x in sides if x not in lit]
                 if lit and oth and (sir.root_expr_name(sir.strip_ref(oth[0])) in unit_names or "unit" in sir.expr_str(oth[0])):
                     val = (subj["op"] == "==") == pol
                     continue
             extra.append(sir.expr_str(subj)[:40] if kind == "cond" else str(subj[1])[:40])
         return val, extra
-    conv = [n for n in sir.walk(f.body) if n.get("k") == "struct" and n["path"].endswith("Dimension") and any(x["name"] == "unit" and sir.expr_str(x["e"]).replace(" ", "").startswith('"vw"') for x in n["fields"])]
+    conv = [n for n in sir.walk(f.body) if n.get("k") == "struct" and n["path"].endswith("Dimension") and any(x["name"] == "unit" and text_of(x["e"]) == "vw" for x in n["fields"])]
     plain = [n for n in sir.walk(f.body) if n.get("k") == "mcall" and n["m"] == "append_token" and len(n["args"]) == 3 and sir.expr_str(n["args"][2]) == "None"]
     probs = []
     if len(conv) != 1:
@@ -667,7 +714,7 @@ def rpx_rules(ctx, prefix):
     for n in sir.walk(f.body):
         if n.get("k") == "struct" and n["path"].endswith("Dimension"):
             fl = {x["name"]: sir.expr_str(x["e"]).replace(" ", "") for x in n["fields"]}
-            if fl.get("unit", "").startswith('"vw"'):
+            if any(x["name"] == "unit" and text_of(x["e"]) == "vw" for x in n["fields"]):
                 tok = fl
     okt = tok is not None and tok.get("value") == "new_value" and tok.get("has_sign") == "has_sign" and tok.get("int_value") == "new_int_value"
     obs.append(ob("%s.expr/token" % prefix, okt, where, "emitted token: %s (expected value=new_value, has_sign forwarded, unit vw)" % tok,
@@ -847,9 +894,13 @@ def host_rules(ctx, prefix):
                 else:
                     out += "\x00"
         return out
-    loops = [(i, n) for i, n in enumerate(nodes) if n.get("k") == "for" and over_stack(n["e"])]
-    pre = [(i, appended_text(n["body"])) for i, n in loops if call and i < call[0]]
-    post = [(i, appended_text(n["body"])) for i, n in loops if call and i > call[0]]
+    loops = [(i, n["body"]) for i, n in enumerate(nodes) if n.get("k") == "for" and over_stack(n["e"])]
+    # the same iteration written as `stack.iter().for_each(|x| ..)`
+    loops += [(i, a_["body"]) for i, n in enumerate(nodes) if n.get("k") == "mcall" and n["m"] in ("for_each", "try_for_each") and over_stack(n["recv"])
+              for a_ in n["args"] if a_.get("k") == "closure"]
+    loops.sort(key=lambda t: t[0])
+    pre = [(i, appended_text(b_)) for i, b_ in loops if call and i < call[0]]
+    post = [(i, appended_text(b_)) for i, b_ in loops if call and i > call[0]]
     ok = (len(sets) == 2 and sets[0][1] is True and sets[1][1] is False and bool(call) and sets[0][0] < call[0] < sets[1][0]
           and len(pre) == 1 and pre[0][1] == "\x00{" and len(post) == 1 and post[0][1] == "}" and not early)
     obs.append(ob("%s.pair/low-priority" % prefix, bool(ok), ctx.where(f), "flag set %s around the body; before it every enclosing at-rule is replayed as %r, after it closed by %r (one each per stack entry), no early exit: %s" % (
@@ -974,9 +1025,17 @@ def capture_offsets_rule(ctx, prefix):
                   witness=None if ok1 and ok2 else "any non-ASCII output before an at-rule shifts the replayed wrapper or panics on a char boundary"))
     # transformer-level wrappers delegate to the current output
     for nm, inner in (("cur_output_utf8_len", "cur_utf8_len"), ("get_output_segment", "get_output_segment")):
-        g = [f for f in sc.fns if f.name == nm and f.base == "StyleSheetTransformer" and f.body]
-        okd = len(g) == 1 and any(n.get("k") == "mcall" and n["m"] == inner and "current_output()" in sir.expr_str(n["recv"]) for n in sir.walk(g[0].body))
-        obs.append(ob("%s.pair/capture-delegates/%s" % (prefix, nm), okd, "lib.rs", "%s() reads the stream currently written to: %s" % (nm, okd)))
+        # every read of the output's length / text made by the transformer goes to the stream currently written to - through a
+        # delegating method of the transformer or directly
+        sites = []
+        for g in sc.fns:
+            if not g.body or g.base == "StyleSheetOutput":
+                continue
+            for n in sir.walk(g.body):
+                if n.get("k") == "mcall" and n["m"] == inner and sir.expr_str(n["recv"]) not in ("self", "ss") and "output" in sir.expr_str(n["recv"]):
+                    sites.append((g.name, sir.expr_str(n["recv"])))
+        okd = bool(sites) and all("current_output()" in r or "current_output_mut()" in r for _g, r in sites)
+        obs.append(ob("%s.pair/capture-delegates/%s" % (prefix, nm), okd, "lib.rs", "%s of the output is read from the stream currently written to at %s" % (inner, sites)))
     return obs
 
 
@@ -1126,9 +1185,45 @@ def import_rules(ctx, prefix):
                       witness=None if uncond else "`@media screen{.a{}} @import './a';` is rewritten without IllegalImportPosition"))
         obs.append(ob("%s.position/flag" % prefix, init == ["True"] and len(s) == 1, ctx.where(g), "at_file_start starts true and is cleared after the first rule: %s %s" % (init, s)))
     # without a sign the rule passes through the generic at-rule path
-    cond = [sir.expr_str(n["cond"]).replace(" ", "") for n in nodes if n.get("k") == "if" and "import_sign" in sir.expr_str(n["cond"]) and n["cond"].get("k") != "let"]
-    ok = any(c == 'at_keyword=="import"&&ss.options.import_sign.is_some()' for c in cond)
-    obs.append(ob("%s.passthrough" % prefix, ok, where, "@import is rewritten only when an import sign is configured: %s" % cond))
+    # decided on abstract paths (lib/absint.py): with a sign configured the rewriter is reached, and only for the keyword `import`;
+    # without a sign no path reaches it
+    import absint as ai
+
+    def reach_rewriter(sign_value):
+        def hooks(it, e, st):
+            if e.get("k") == "mcall" and e["m"] == "try_parse" and any(x.get("k") == "mcall" and x["m"] == "expect_string_cloned" for a_ in e["args"] for x in sir.walk(a_)):
+                kw = [v for k_, v in st.env.items() if not k_.startswith("$") and v == "import"]
+                return [(ai.FREE, st.event(("rewriter", bool(kw))))]
+            if e.get("k") == "mcall" and sir.root_expr_name(e["recv"]) in ("input", "peek", "next") and e["m"] not in ("is_some", "is_none", "clone", "unwrap", "as_ref"):
+                return [(ai.FREE, st)]
+            return None
+        it = ai.Interp(hooks=hooks, idx=ctx.sc)
+        it.field_vars = {"import_sign"}
+        it.max_paths = 3000
+        env = {n_: ai.FREE for n_ in f.param_names() if n_}
+        env["$f:import_sign"] = sign_value
+        try:
+            return it.run(f.body, env)
+        except ai.TooManyPaths:
+            return None
+    with_sign = reach_rewriter(("Some", ai.FREE))
+    without = reach_rewriter(ai.NONE)
+    if with_sign is None or without is None:
+        obs.append(ob("%s.passthrough" % prefix, None, where, "too many paths through parse_at_rule to follow: not decided for this tree"))
+        return obs
+    ev_with = [ev for o in with_sign for ev in o.events if ev[0] == "rewriter"]
+    ev_without = [ev for o in without for ev in o.events if ev[0] == "rewriter"]
+    if not ev_with:
+        verdict = None if any(o.tainted for o in with_sign) else False
+        d = "with a sign configured no path reaches the import rewriter"
+    elif ev_without:
+        verdict, d = False, "the import rewriter is reached although no import sign is configured"
+    elif not all(ev[1] for ev in ev_with):
+        verdict, d = False, "the import rewriter is reached for at-rules other than `@import`"
+    else:
+        verdict, d = True, "with a sign the rewriter is reached on %d path(s), each with the keyword equal to `import`; without a sign on none" % len(ev_with)
+    obs.append(ob("%s.passthrough" % prefix, verdict, where, "@import is rewritten only when an import sign is configured: " + d,
+                  witness=None if verdict is not False else "without --import-sign an `@import` (or with it another at-rule) is replaced by a placeholder comment"))
     return obs
 
 
@@ -1174,6 +1269,26 @@ def sourcemap_rules(ctx, prefix):
         where = ctx.where(f)
         nodes = list(sir.walk(f.body))
         incs = [n for n in nodes if n.get("k") == "binary" and n["op"] == "+=" and sir.expr_str(n["l"]) == "self.utf16_len"]
+        # the column may also be advanced by a private method of the output type that is handed the start offset
+        # (`self.advance_from(start)` with body `self.utf16_len += self.s[start..].encode_utf16().count()`): such a call counts as
+        # the increment it performs, with the argument substituted for the parameter
+        for n in nodes:
+            if n.get("k") == "mcall" and sir.expr_str(n["recv"]) == "self" and len(n["args"]) == 1:
+                hs = [g for g in sc.fns if g.name == n["m"] and g.base == "StyleSheetOutput" and g.body and not g.node.get("vis")]
+                if len(hs) != 1:
+                    continue
+                hn = list(sir.walk(hs[0].body))
+                hincs = [x for x in hn if x.get("k") == "binary" and x["op"] == "+=" and sir.expr_str(x["l"]) == "self.utf16_len"]
+                pn = [x for x in hs[0].param_names() if x and x != "self"]
+                if len(hincs) != 1 or len(pn) != 1:
+                    continue
+                rtxt = sir.expr_str(hincs[0]["r"])
+                for x in hn:   # locals of the helper that only name a sub-expression
+                    if x.get("k") == "local" and x["pat"].get("k") == "p_ident" and x.get("init") is not None:
+                        rtxt = re.sub(r"\b%s\b" % re.escape(x["pat"]["name"]), "(" + sir.expr_str(sir.strip_ref(x["init"])) + ")", rtxt)
+                rtxt = re.sub(r"\b%s\b" % re.escape(pn[0]), sir.expr_str(sir.strip_ref(n["args"][0])), rtxt)
+                n["_inc_text"] = rtxt
+                incs.append(n)
         problems = []
         def utf16_measured(e, depth=0):
             """the string expression whose UTF-16 length `e` computes (directly, or through a private one-line helper), else None"""
@@ -1205,10 +1320,15 @@ def sourcemap_rules(ctx, prefix):
             if n.get("k") == "binary" and n["op"] == "+=" and sir.expr_str(n["l"]) == "self.s":
                 appended.add(sir.expr_str(sir.strip_ref(n["r"])))
         for inc in incs:
-            r = sir.expr_str(inc["r"]).replace(" ", "")
-            if r == "1":
-                continue
-            m_ = utf16_measured(inc["r"])
+            if inc.get("_inc_text") is not None:
+                r = inc["_inc_text"].replace(" ", "")
+                mm0 = re.fullmatch(r"\(?\(?&?(self\.s\[\w+\.\.\])\)?\.encode_utf16\(\)\.count\(\)\)?(asu32)?", r)
+                m_ = {"k": "path", "s": mm0.group(1), "segs": [mm0.group(1)], "sp": [0, 0, 0, 0]} if mm0 else None
+            else:
+                r = sir.expr_str(inc["r"]).replace(" ", "")
+                if r == "1":
+                    continue
+                m_ = utf16_measured(inc["r"])
             ms = sir.expr_str(m_).replace(" ", "") if m_ is not None else None
             if ms is not None:
                 mm_ = re.fullmatch(r"self\.s\[(\w+)\.\.\]", ms)
@@ -1242,7 +1362,7 @@ def sourcemap_rules(ctx, prefix):
                     problems.append("source-map entry is registered after the column was advanced past the token")
                 # and after the separator increment
                 if sepw:
-                    sep_inc = [i for i in inc_i if sir.expr_str(nodes[i]["r"]) == "1"]
+                    sep_inc = [i for i in inc_i if nodes[i].get("k") == "binary" and sir.expr_str(nodes[i]["r"]) == "1"]
                     if sep_inc and not sep_inc[0] < add[0]:
                         problems.append("separator column counted after the entry")
             name_ok = any(n.get("k") == "mcall" and n["m"] == "add_name" for n in nodes) and any(n.get("k") == "mcall" and n["m"] == "to_css_string" for n in nodes)
